@@ -89,7 +89,9 @@ func NewTreePersistent(path string) (*Tree, error) {
 func (t *Tree) reinit() {
 	// Calculate t.nextPage by finding the first node whose pageID is not set.
 	t.nextPage = 1
-	for int(t.nextPage)*pageSize < len(t.data) {
+	// Only look at whole pages: the data does not have to end on a page
+	// boundary (the buffer keeps a few bytes of padding in front of it).
+	for int(t.nextPage+1)*pageSize <= len(t.data) {
 		n := t.node(t.nextPage)
 		if n.pageID() == 0 {
 			break
